@@ -404,6 +404,11 @@ def edge_family():
                         n = 4
                         t0['calc_dep'] = [3]
                         t3[{'calc_returned_task': 'calc_task', 'calc_returned_file': 'calc_file', 'calc_returned_calc': 'calc_calc'}[kind]] = [1]
+                        if vname in ('utd', 'ok') and fl == 'serial':
+                            # the calc task itself found up-to-date (its values come from the DB), processed first
+                            tu = dict(t3); tu['check'] = 'utd'
+                            cases.append(dict(n=n, tasks=[dict(t) for t in [t0, t1, t2, tu]], selected=[3] + list(sel), cont=True, always=False,
+                                              flavour=fl, k=k, sched=[0] * 12))
                         if sel[0] != 0:
                             sel = [3] + sel      # the calc task is already processed when task 0 is first looked at
                         elif fl == 'serial' or k == 2:
